@@ -2,7 +2,8 @@ import IsalVerif.Gen.MhUpdate
 import IsalVerif.Lemmas.MhCProofs
 /-!
   Per-run obligations over `Gen/MhUpdate.lean` (regenerated from the current tree by `tools/gen_mhupdate.py`): every
-  instance of the multi-hash update template (`_mh_sha1_update_{base,sse,avx,avx2,avx512}`, `_mh_sha256_update_*`), as
+  instance of the multi-hash update template (`_mh_sha1_update_{base,sse,avx,avx2,avx512}`, `_mh_sha256_update_*`,
+  `_mh_sha1_murmur3_x64_128_update_*`), as
   the source reads now, is the program whose meaning `Lemmas/MhCProofs.lean` establishes (`canon_mh_update`): for every
   context state and every input shorter than 2^32 − 1024 bytes it advances `total_length` by the input length, calls
   the block function of its own family on exactly the completed carried block and on the whole blocks of the input, in
@@ -16,7 +17,14 @@ open IsalVerif IsalVerif.MhC
     of another family) -/
 theorem all_canon : Gen.MhUpdate.all.all (fun x => decide (x.prog = canon)) = true := by decide
 
-theorem all_count : 10 ≤ Gen.MhUpdate.all.length := by decide
+theorem all_count : 15 ≤ Gen.MhUpdate.all.length := by decide
+
+/-- the stitched mh_sha1 + murmur3 update (C10) is among the instances: same template, the block function takes the
+    murmur state as one more pointer -/
+theorem stitched_present :
+    ["_mh_sha1_murmur3_x64_128_update_base", "_mh_sha1_murmur3_x64_128_update_sse", "_mh_sha1_murmur3_x64_128_update_avx",
+     "_mh_sha1_murmur3_x64_128_update_avx2", "_mh_sha1_murmur3_x64_128_update_avx512"].all
+      (fun n => Gen.MhUpdate.all.any (fun x => decide (x.fn = n))) = true := by decide
 
 theorem mhupdate_current (x : Src) (hx : x ∈ Gen.MhUpdate.all) (s : St) (ht : s.total < 2^64)
     (hl : s.input.length + 1024 < 2^32) (h0 : s.locs 0 = s.input.length) (h3 : s.locs 3 = 0) (hc : s.calls = [])
